@@ -215,6 +215,10 @@ def run(ctx):
         ctx.notes.append("translator failed closed: %s" % tr_err)
     else:
         proof_ok = ctx.prove("Prop_C07.v")
+    # tie by translation of the WRAPPER layer (DESIGN 2.8): gen/Gen_interpw.v is regenerated from interp.py (translate_all job
+    # "interpw") and compiled; its lemmas gen_<f>_ok state generated == hand model (model/Interp.v wrappers, model/InterpW.v)
+    from tools import translate_interpw
+    tie_broken = translate_interpw.tie(ctx)  # obligations "translate:sigpy/interp.py (wrapper layer: ...)", "tie:generated == hand model (...)"
     sp = core.import_sigpy()
     rng = ctx.rng
     n = ctx.n(260, 6000)
@@ -269,9 +273,15 @@ def run(ctx):
         broken = getattr(ctx, "broken_proof", {"theorem": "translate:sigpy/interp.py" if tr_err else "corr:coq-run", "log": str(tr_err)})
         ctx.violation("proof obligation no longer checks: %s" % broken.get("theorem"), {"kind": "proof", "broken": broken},
                       found_input=False, signature="C07:proof")
+    if tie_broken and not any(v["found_input"] for v in ctx.violations):
+        ctx.violation("proof obligation no longer checks: %s" % tie_broken.get("theorem"), {"kind": "proof", "broken": tie_broken},
+                      found_input=False, signature="C07:tie")
     ctx.trusted += ["Coq 8.16.1 kernel + vm_compute (PrimFloat for running only)",
                     "tools/translate_loops.py (kernels and _spline_kernel) and LoopIR.exec as the reading of the numba loops",
-                    "hand model of the interpolate/gridding wrappers (coq/model/Interp.v), tied by this correspondence",
+                    "hand model of the interpolate/gridding wrappers (coq/model/Interp.v), tied by this correspondence and, since "
+                    "tools/translate_interpw.py, by gen/Gen_interpw.v: the wrappers, their defaults, the dispatch tables and "
+                    "_kaiser_bessel_kernel regenerated from the source text on every run with lemmas gen_<f>_ok (generated == hand model); "
+                    "trusted there: the translator's reading of the accepted Python fragment (notes/translate_interpw.md)",
                     "Kaiser-Bessel kernel values are measured on the implementation (the I0 polynomial is outside the model)"]
     ctx.validated_only += [                           "Kaiser-Bessel polynomial vs the true I0 (compared with numpy.i0 to 3e-6 in the oracle)"]
 
